@@ -922,7 +922,7 @@ func checkCase(c Case, prop string, r *rng.R, st *stats) []failure {
 			want[id.route] = true
 		}
 		if len(out) != len(want) {
-			fail("maximal:more-than-one-file-per-routing-pair", fmt.Sprintf("%d output files for %d routing pairs though no limit binds", len(out), len(want)))
+			fail("maximal:file-count-differs-from-routing-pairs", fmt.Sprintf("%d output files for %d routing pairs though no limit binds", len(out), len(want)))
 		}
 		for fi, f := range out {
 			for bi := range f.Batches {
